@@ -192,16 +192,16 @@ class Rotate(Domain):
         # domain_bounds are in shape [x_min, x_max, y_min, y_max, ...]
         # both min and max have to be shifted by the same value
         domain_bounds = domain_bounds - translation_values
-        rotated_min = torch.matmul(rotation_matrix, domain_bounds[:, ::2].unsqueeze(-1))
-        rotated_min = rotated_min.squeeze(-1)
-        rotated_max = torch.matmul(
-            rotation_matrix, domain_bounds[:, 1::2].unsqueeze(-1)
-        )
-        rotated_max = rotated_max.squeeze(-1)
-        domain_bounds = torch.zeros(
-            (len(rotated_min), 2 * self.space.dim), device=device
-        )
-        domain_bounds[:, ::2] = torch.min(rotated_min, rotated_max)
-        domain_bounds[:, 1::2] = torch.max(rotated_min, rotated_max)
+        # rotate all corners of the box, not only the two extreme ones
+        dim = self.space.dim
+        corner_index = torch.cartesian_prod(*(dim * [torch.arange(2)])).reshape(-1, dim)
+        axis_index = 2 * torch.arange(dim) + corner_index  # (2**dim, dim)
+        corners = domain_bounds[:, axis_index]  # (rows, 2**dim, dim)
+        rotated = torch.matmul(
+            rotation_matrix.unsqueeze(1), corners.unsqueeze(-1)
+        ).squeeze(-1)
+        domain_bounds = torch.zeros((len(rotated), 2 * dim), device=device)
+        domain_bounds[:, ::2] = torch.min(rotated, dim=1).values
+        domain_bounds[:, 1::2] = torch.max(rotated, dim=1).values
         domain_bounds = domain_bounds + translation_values
         return domain_bounds.squeeze(0)
